@@ -191,7 +191,7 @@ class SAMIReader(BaseReader):
         captions = CaptionList(layout_info=parent_layout)
         milliseconds = 0
 
-        for p in sami_soup.select(f'p[lang|={language}]'):
+        for p in sami_soup.select(f'p[lang="{language}"]'):
             start_str = p.parent.get('start')
             if not start_str:
                 raise CaptionReadTimingError(
@@ -678,6 +678,10 @@ class SAMIParser(HTMLParser):
 
             # if no language detected, set it as the default
             lang = lang or DEFAULT_LANGUAGE_CODE
+            # the detected language replaces an inline lang attribute (of
+            # which only the primary subtag is used), so that the reader can
+            # select a language's paragraphs by their exact language
+            attrs = [(a, v) for a, v in attrs if a.lower() != 'lang']
             attrs.append(('lang', lang))
             self.langs[lang] = None
 
